@@ -75,6 +75,49 @@ def one_average(rng_seed, trial_kind, walker_type, norb, ne, nchol, dt, spin_dep
     return res, wbad
 
 
+def degenerate_walker_case(rng_seed, walker_type, mode):
+    """'set to zero when it is not a number': a population in which one walker has EXACTLY zero overlap with the
+    trial (mode 'orthogonal') or non-finite entries (mode 'overflow').  Its weight must come out 0, the other
+    walkers' weights must be what they are without it (walkers evolve independently), and the run must stay finite."""
+    import jax.numpy as jnp
+    rng = random.Random(rng_seed)
+    norb, ne = 4, ((2, 2) if walker_type == "restricted" else (2, 1))
+    tk = "rhf" if walker_type == "restricted" else "uhf"
+    S = qd.build(rng, tk, walker_type, norb, ne, 2, 0.01, walker_type != "restricted", 3)
+    prop, trial, hd, wd = S["prop"], S["trial"], S["ham_data"], S["wave_data"]
+    restricted = walker_type == "restricted"
+    # trial = leading unit vectors, so that a walker made of the other unit vectors is exactly orthogonal to it
+    eye = np.eye(norb)
+    if restricted:
+        wd = dict(wd, mo_coeff=jnp.array(eye[:, :ne[0]]))
+    else:
+        wd = dict(wd, mo_coeff=[jnp.array(eye[:, :ne[0]]), jnp.array(eye[:, :ne[1]])])
+    good = [wf.complex_walker(rng, norb, ne[0]) for _ in range(3)]
+    goodb = [wf.complex_walker(rng, norb, ne[1]) for _ in range(3)]
+    bad = (eye[:, norb - ne[0]:] + 0j) if mode == "orthogonal" else np.full_like(good[1], np.inf)
+    out = {}
+    for label, mid in (("with", bad), ("without", good[1])):
+        Wa = [good[0], mid, good[2]]
+        walkers = jnp.array(Wa) if restricted else [jnp.array(Wa), jnp.array(goodb)]
+        ov = trial.calc_overlap(walkers, wd)
+        pd = {"walkers": walkers, "weights": jnp.ones(3), "overlaps": ov, "e_estimate": jnp.array(0.0), "pop_control_ene_shift": jnp.array(0.25)}
+        fields = jnp.array([[0.5, -0.25], [0.125, 0.75], [-0.5, 0.25]])
+        o1 = prop.propagate(trial, hd, dict(pd), fields, wd)
+        o2 = prop.propagate(trial, hd, {k: v for k, v in o1.items()}, fields, wd)
+        out[label] = (np.array(o1["weights"]), np.array(o2["weights"]), complex(np.array(o1["pop_control_ene_shift"])))
+    w1, w2, sh = out["with"]
+    v1, v2, _ = out["without"]
+    bad_list = []
+    if not (w1[1] == 0.0):
+        bad_list.append(("weight of a walker whose importance factor is not a number is set to zero", {"weight": str(w1[1])}))
+    if not (np.isfinite(w1).all() and np.isfinite(w2).all() and np.isfinite(sh)):
+        bad_list.append(("weights and the population-control shift stay finite when one walker is degenerate",
+                         {"weights_step1": [str(x) for x in w1], "weights_step2": [str(x) for x in w2], "shift": str(sh)}))
+    elif abs(w1[0] - v1[0]) > 1e-12 or abs(w1[2] - v1[2]) > 1e-12:
+        bad_list.append(("the other walkers' weights do not depend on the degenerate walker", {"with": [str(x) for x in w1], "without": [str(x) for x in v1]}))
+    return bad_list
+
+
 def run(ctx):
     systems.setup_jax()
     rng = random.Random(ctx.seed)
@@ -109,14 +152,25 @@ def run(ctx):
                                   "field-averaged importance-weighted step equals exp(-dt (H - E_shift)) up to an O(dt^2) residual (>= threefold shrink per halving)", det))
         except Exception as ex:
             spec_fail.append((f"propagator_{wt}.propagate ({tk})", "quadrature run executes", {"error": repr(ex)[:400]}))
+    degenerate = 0
+    for wt in ("restricted", "unrestricted"):
+        for mode in ("orthogonal", "overflow"):
+            seed = rng.randrange(1 << 30)
+            try:
+                for clause, det in degenerate_walker_case(seed, wt, mode):
+                    spec_fail.append((f"propagator_{wt}.propagate", clause, {"walker": mode, "seed": seed, **det}))
+                degenerate += 1
+            except Exception as ex:
+                spec_fail.append((f"propagator_{wt}.propagate", "degenerate-walker run executes", {"walker": mode, "error": repr(ex)[:300]}))
+    evals += degenerate
     ctx.cov["evaluations"] = evals
-    ctx.cov["distinct_nontrivial"] = len(stats) * len(ladder)
+    ctx.cov["distinct_nontrivial"] = len(stats) * len(ladder) + degenerate
     ctx.cov["rule"] = ("trial kinds usable for propagation (rhf+restricted, uhf/noci/ghf+unrestricted), h0, symmetric h1 per spin (spin-dependent for "
                        "unrestricted), 1-3 symmetric Cholesky matrices, arbitrary symmetric rdm1 for the mean-field shift, complex non-orthonormal walker, "
                        "random E_shift; fields = tensor Gauss-Hermite nodes (8-10 per dimension); dt ladder 0.04..0.005; residual on the full Fock space")
     ctx.cov["samples"] = [json.dumps(stats[0])[:600] if stats else "-"]
     ctx.cov["ladders"] = stats
-    ctx.cov["correspondence"] = {"quadrature_runs": evals}
+    ctx.cov["correspondence"] = {"quadrature_runs": evals - degenerate, "degenerate_walker_runs": degenerate}
     ctx.assumptions += ["the complex importance factor is reconstructed from public quantities (force bias, mean-field shifts, overlaps) by the formula in the "
                         "property statement", "expm of scipy for the Fock-space reference; Gauss-Hermite quadrature error (entire integrands, negligible)",
                         "order clause (O(dt^2)) and the complex-shift identity are validated by the ladder, not proved"]
